@@ -183,8 +183,9 @@ structure St where
   /-- `s.rootEnv` -/
   root : Nat := 0
   depth : Nat := 0
-  /-- the chain of output writers: head is `s.Out` -/
-  outs : List Bytes := [[]]
+  /-- the chain of output writers: head is `s.Out`; each writer is the list of chunks written so
+  far, most recent first -/
+  outs : List (List Bytes) := [[]]
   cache : List CacheEntry := []
   steps : Nat := 0
   extNames : List String := []
